@@ -6,6 +6,12 @@ props = [json.loads(l) for l in open(os.path.join(ROOT, "properties.jsonl"))]
 
 # id -> (technique, level text, level note, design ref)
 CHECKS = {
+ "C01": ("crash/abort/panic observation of sharded worker processes + ASan/LSan + allocation ledger + UTF-8 validity monitor over ~60 safe entry points on hostile inputs (native release, native debug with overflow checks, ASan)",
+         "Exploration: every generated, mutated, truncated, deeply nested, large and corpus input is pushed through every safe entry point and carrier in three builds; the oracle is the process status, the panic hook, the sanitizer runtime, a counting allocator (second identical execution must not change the live block count) and from_utf8 over every str handed out. Held on the executions observed.",
+         "Trusted: rustc, ASan/LSan runtime, the harness supervisor. 'Bounded stack' is read as: fits Rust's default 2 MiB thread stack in native builds (8 MiB under ASan instrumentation). Unsafe *_unchecked entry points are not driven here."),
+ "C03": ("differential runtime monitor: DOM walked through the public read API against an independent reference parse tree (order, duplicates, strings, number classes bit-exact); whole-input, embedded, Vec and stream drivers; default/rawnumber/lossy configs; ASan + arbitrary_precision builds",
+         "Exploration over seeded generated documents (incl. duplicate keys), all valid token sequences up to 4 tokens, the repository's corpus files under blank-prefix alignments and documents above the thread-local node-buffer threshold.",
+         "Trusted: harness recogniser + Rust std float parsing as number oracle (literal -0 may be I64(0) or F64(-0.0))."),
  "C02": ("differential runtime monitor: independent RFC 8259 recogniser as accept/reject oracle over enumerated token sequences and mutated documents; ASan build",
          "Exploration: every listed entry point x carrier is executed on all token sequences up to the bound and on seeded generated/mutated documents; an independent recogniser decides what must be accepted. Held on the cases observed, not a proof over all byte strings.",
          "Trusted: the harness recogniser (cross-checked against serde_json), rustc, ASan runtime. Depth is capped at 64 so the permitted nesting-limit rejection never explains a verdict."),
